@@ -348,6 +348,7 @@ class PointQuad:
 _Q = z3.Function("quad", R, R, R, R)
 _QINF = z3.Function("quad_inf", R, R, R)
 _DQ = z3.Function("dblquad", R, R, R, R, R, R)
+_QT = z3.Function("quad_tol", R, R, R)
 
 
 def _isinf(b):
@@ -359,21 +360,33 @@ class UFQuad:
     frequency: equal integrands and limits give equal quadratures, nothing else is assumed.
     In 'frac' mode Q is a fixed concrete function (injective enough for validation)."""
 
-    def __init__(self, inp, wstar):
-        self.inp, self.w = inp, wstar
+    def __init__(self, inp, wstar, tol_dependent=False):
+        # tol_dependent: the result also depends (through an uninterpreted term) on epsrel and limit,
+        # so that answers for different tolerances are distinguishable
+        self.inp, self.w, self.tol = inp, wstar, tol_dependent
         self.calls = []
+
+    def _tolterm(self, epsrel, limit):
+        if not self.tol or epsrel is None or limit is None:
+            return S(0)
+        e = epsrel.re if isinstance(epsrel, S) else Fraction(float(epsrel))     # exact, no float lifting
+        l = Fraction(int(limit))
+        if self.inp.mode == "sym":
+            return S(_QT(zr(e), zr(l)))
+        return S(e * 4096 + l / 997)
 
     def quad(self, func, a=None, b=None, epsrel=None, limit=None, **kw):
         v = S.of(unwrap(func(self.w)))
         a_ = S.of(a)
         assert sym._isz(v.im) and sym._isz(a_.im)
-        self.calls.append({"v": v, "a": a, "b": b})
+        self.calls.append({"v": v, "a": a, "b": b, "epsrel": epsrel, "limit": limit})
+        t = self._tolterm(epsrel, limit)
         if self.inp.mode == "sym":
             if _isinf(b):
-                return (S(_QINF(zr(v.re), zr(a_.re))), 0.0)
-            return (S(_Q(zr(v.re), zr(a_.re), zr(S.of(b).re))), 0.0)
+                return (S(_QINF(zr(v.re), zr(a_.re))) + t, 0.0)
+            return (S(_Q(zr(v.re), zr(a_.re), zr(S.of(b).re))) + t, 0.0)
         bb = S(Fraction(11, 3)) if _isinf(b) else S.of(b)
-        return (v * (a_ + 3) + v * v * bb / 7 + bb / 5, 0.0)
+        return (v * (a_ + 3) + v * v * bb / 7 + bb / 5 + t, 0.0)
 
     def dblquad(self, func, a, b, gfun, hfun, epsrel=None, **kw):
         x, y = self.w, self.w / 3
